@@ -393,6 +393,23 @@ class OfxgetWorld:
         # L2 / L5: persistence
         if run.ok and run.write and not run.dryrun:
             E = run.after or run.effective
+            if (run.cmd == "acctinfo" or run.all) and not self.acct_error and E is not None:
+                # what gets saved after an account-information exchange is the accounts the server lists as
+                # ACTIVE (server truth), not whatever the program's own merged mapping says
+                E = dict(E)
+                active = {}
+                for a in self.acct_spec:
+                    if a["status"] != "ACTIVE" or a["kind"] == "bp":
+                        continue
+                    key = {"cc": "creditcard", "inv": "investment"}.get(a["kind"]) or a["accttype"].lower()
+                    if key in LISTS:
+                        active.setdefault(key, []).append(a["acctid"])
+                for key in LISTS:
+                    if key in active:
+                        E[key] = active[key]
+                    elif not null(E.get(key)) and key not in run.cli:
+                        E[key] = []
+                self.sim.count("probe.discovered_accounts_persisted")
             if run.file_after is None:
                 self.violate("C18", "L2-persist", "no-file", f"run{run.n}: --write succeeded but no configuration file exists")
                 return
@@ -834,6 +851,9 @@ def drive(world, tier):
                 cli.pop(opt, None)
             if ch.flag("cli.all.nodry", 0.9):
                 dryrun = False
+            world.acct_spec = draw_accounts(world)
+            sim.log(f"server account list: {[(a['kind'], a.get('accttype'), a['acctid'], a['status']) for a in world.acct_spec]}")
+        if cmd == "acctinfo":
             world.acct_spec = draw_accounts(world)
             sim.log(f"server account list: {[(a['kind'], a.get('accttype'), a['acctid'], a['status']) for a in world.acct_spec]}")
         argv = [cmd, NICK]
